@@ -7,10 +7,13 @@ def plan(ctx):
     U = real_crc_units()
     for be, k, m, hd in [(RS, 2, 1, 1), (XOR, 3, 3, 3), (ISAV, 2, 1, 1)] + ([(RS, 3, 2, 2), (ISAC, 2, 1, 1)] if thorough else []):
         for ct in (1, 2):
-            obs.append(Ob(id=f"determinism-{BNAME[be]}{k}_{m}-ct{ct}", harness="c15.c", defs=dict(BE=be, K=k, M=m, HD=hd, CT=ct), units=U, unwind=max(8, k + m + 3),
-                          unwindset=dict({f"main.{i}": 100 for i in range(8)}, **{"enc.0": 100, "enc.1": 100, "crc32.0": 84, "crc32.1": 84, "ec_init_tables.0": 40, "ec_init_tables.1": 40, "ec_init_tables.2": 40}),
-                          timeout=1500, mem_gb=6, sample={"symbolic": "5 data bytes, 5 unrelated bytes, choice of intervening activity (5 kinds)", "shape": [BNAME[be], k, m, hd], "ct": ct},
-                          targets=["liberasurecode_encode", "liberasurecode_instance_create", "liberasurecode_instance_destroy"]))
+            for act in range(5):
+                if ctx.tier == "quick" and ct == 1 and act not in (0, 1):
+                    continue
+                obs.append(Ob(id=f"determinism-{BNAME[be]}{k}_{m}-ct{ct}-act{act}", harness="c15.c", defs=dict(BE=be, K=k, M=m, HD=hd, CT=ct, ACT=act), units=U, unwind=max(8, k + m + 3),
+                              unwindset=dict({f"main.{i}": 100 for i in range(8)}, **{"enc.0": 100, "enc.1": 100, "crc32.0": 84, "crc32.1": 84, "ec_init_tables.0": 40, "ec_init_tables.1": 40, "ec_init_tables.2": 40}),
+                              timeout=1500, mem_gb=6, sample={"symbolic": "5 data bytes, 5 unrelated bytes", "activity": ["create+destroy RS(1,1)", "create flat_xor(3,3,3), encode, leave alive", "failing create", "encode on an unknown descriptor", "legacy switch explicitly '0'"][act], "shape": [BNAME[be], k, m, hd], "ct": ct},
+                              targets=["liberasurecode_encode", "liberasurecode_instance_create", "liberasurecode_instance_destroy"]))
     # inputs untouched / read exactly within bounds: the hosts assert it (exact-size heap objects + saved copies)
     obs.append(enc_ob(RS, 2, 1, 1, 2, 5, tag="pure-encode"))
     obs.append(enc_ob(XOR, 3, 3, 3, 1, 13, tag="pure-encode"))
